@@ -374,9 +374,10 @@ impl Catalog {
             stats.total_bytes_freed += bytes_freed;
         }
 
-        // Relations whose CREATE was rolled back: their catalog rows are about to be removed for good,
-        // so their pages must go back to the free list now or nothing would ever reach them again.
-        let aborted_roots = self.roots_of_aborted_creates(builder, snapshot)?;
+        // Relations whose catalog row is about to be removed for good (dropped, or created by a
+        // transaction that was rolled back): their pages must go back to the free list now, or
+        // nothing would ever reach them again.
+        let roots_before = self.relation_roots(builder)?;
 
         // vacuum the meta table itself
         stats.meta_table_bytes_freed += self.vacuum_btree(
@@ -396,20 +397,18 @@ impl Catalog {
             oldest_active_xid,
         )?;
 
-        for root in aborted_roots {
-            builder.build_tree_mut(root).dealloc()?;
+        let roots_after = self.relation_roots(builder)?;
+        for root in roots_before {
+            if !roots_after.contains(&root) {
+                builder.build_tree_mut(root).dealloc()?;
+            }
         }
 
         Ok(stats)
     }
 
-    /// Root pages of the relations in the meta table whose creating transaction was rolled back
-    /// and that no DROP has deallocated yet.
-    fn roots_of_aborted_creates(
-        &self,
-        builder: &BtreeBuilder,
-        snapshot: &Snapshot,
-    ) -> CatalogResult<Vec<PageId>> {
+    /// Root pages of all relations that have a row in the meta table, whatever its visibility.
+    fn relation_roots(&self, builder: &BtreeBuilder) -> CatalogResult<Vec<PageId>> {
         let schema = meta_table_schema();
         let mut roots = Vec::new();
         let mut meta_table = builder.build_tree(self.meta_table);
@@ -419,13 +418,10 @@ impl Catalog {
         for position in meta_table.iter_forward()? {
             let pos = position?;
             meta_table.with_cell_at(pos, |bytes| {
-                let tuple = Tuple::from_slice_unchecked(bytes)?;
-                if snapshot.is_transaction_aborted(tuple.xmin()) && !tuple.is_deleted() {
-                    let reader = TupleReader::from_schema(&schema);
-                    let layout = reader.parse_last_version(bytes)?;
-                    let row = TupleRef::new(bytes, layout).to_row_with(&schema)?;
-                    roots.push(Relation::from_meta_table_row(row).root());
-                }
+                let reader = TupleReader::from_schema(&schema);
+                let layout = reader.parse_last_version(bytes)?;
+                let row = TupleRef::new(bytes, layout).to_row_with(&schema)?;
+                roots.push(Relation::from_meta_table_row(row).root());
                 Ok::<(), TupleError>(())
             })??;
         }
@@ -585,12 +581,9 @@ impl Catalog {
             }
         };
 
-        // First, deallocate the relation.
-        // Deallocate the relation.
-      {
-            let mut tree = builder.build_tree_mut(rel.root());
-            tree.dealloc()?;
-        }
+        // The pages of the relation are NOT released here: the transaction may still be rolled back,
+        // and older snapshots may still read the relation. VACUUM releases the tree when it removes
+        // the catalog row (see `Catalog::vacuum`).
 
         // Obtain the relation metadata
         let relation_id = rel.object_id();
